@@ -330,3 +330,42 @@ func GenWildModel(rng *rand.Rand) *Model {
 	rng.Shuffle(len(m.Types), func(i, j int) { m.Types[i], m.Types[j] = m.Types[j], m.Types[i] })
 	return emptyRelSometimes(rng, m, 8)
 }
+
+// GenCycleWeb: a small web of tuple cycles — 3 to 6 relations of one type, each a direct assignment
+// over usersets of the others (sometimes behind a union with a computed relation or a TTU), with
+// 0-2 terminal types. Nested cycles that share nodes, in every order of the restrictions, are the
+// shapes on which cycle resolution depends on the traversal and on Go's map iteration order.
+func GenCycleWeb(rng *rand.Rand) *Model {
+	n := 3 + rng.Intn(4)
+	names := []string{"a", "b", "m", "n", "x", "y"}[:n]
+	terms := []string{"user", "employee"}
+	m := &Model{Schema: "1.1"}
+	for _, t := range terms {
+		m.Types = append(m.Types, Type{Name: t, MetaNil: true})
+	}
+	ty := Type{Name: "doc"}
+	ty.Rels = append(ty.Rels, Rel{Name: "p", Rewrite: This(), Restr: []Ref{{Type: "doc"}}})
+	for i, r := range names {
+		refs := []Ref{}
+		k := 1 + rng.Intn(3)
+		for j := 0; j < k; j++ {
+			refs = append(refs, Ref{Type: "doc", Rel: names[rng.Intn(n)]})
+		}
+		if rng.Intn(3) != 0 || i == 0 {
+			refs = append(refs, Ref{Type: terms[rng.Intn(2)], Wildcard: rng.Intn(6) == 0})
+		}
+		rng.Shuffle(len(refs), func(a, b int) { refs[a], refs[b] = refs[b], refs[a] })
+		var u *U
+		switch rng.Intn(6) {
+		case 0:
+			u = Union(This(), CU(names[rng.Intn(n)]))
+		case 1:
+			u = Union(This(), TTU("p", names[rng.Intn(n)]))
+		default:
+			u = This()
+		}
+		ty.Rels = append(ty.Rels, Rel{Name: r, Rewrite: u, Restr: refs})
+	}
+	m.Types = append(m.Types, ty)
+	return m
+}
